@@ -44,7 +44,7 @@ func BuildWorlds(cfg Config, prop string, nFix, nSyn, rejectPct int, rich bool, 
 	// last (at formatting, i.e. after everything but the write), so that even a
 	// small batch holds a late failure; likewise the first accepted synthetic
 	// worlds are forced to have a dotted setup file name / a nested package dir
-	late := []string{"bad-literal", "gomod-lagging", "unknown-converter", "syntax-error", "non-struct-operand", "reverse-without-arg", "unresolved-type", "no-interface", "bad-style"}
+	late := []string{"bad-literal", "qualifier-by-package-name", "gomod-lagging", "unknown-converter", "syntax-error", "non-struct-operand", "reverse-without-arg", "unresolved-type", "no-interface", "bad-style"}
 	nRej, nAcc := 0, 0
 	for i := 0; i < nSyn; i++ {
 		r := sim.Derive(cfg.Seed, prop, "world", i)
